@@ -67,11 +67,17 @@ Qed.
 Lemma pgn_upd_dev n i d : n_pgn (upd_dev n i d) = n_pgn n.  Proof. reflexivity. Qed.
 Lemma pgn_upd_q n q d : n_pgn (upd_q n q d) = n_pgn n.  Proof. reflexivity. Qed.
 Lemma pgn_set_now n t : n_pgn (set_now n t) = n_pgn n.  Proof. reflexivity. Qed.
+Lemma now_upd_dev n i d : n_now (upd_dev n i d) = n_now n.  Proof. reflexivity. Qed.
+Lemma now_upd_q n q d : n_now (upd_q n q d) = n_now n.  Proof. reflexivity. Qed.
+Lemma now_end_send_tp n i : n_now (end_send_tp n i) = n_now n.  Proof. reflexivity. Qed.
+Lemma now_set_claim_timer n i t : n_now (set_claim_timer n i t) = n_now n.  Proof. reflexivity. Qed.
+(* what part 1 keeps: the PGN configuration and (except for the tick operation) the clock *)
+Definition nsame (n n':node) : Prop := n_pgn n' = n_pgn n /\ n_now n' = n_now n.
 Lemma pgn_end_send_tp n i : n_pgn (end_send_tp n i) = n_pgn n.  Proof. reflexivity. Qed.
 Lemma pgn_set_claim_timer n i t : n_pgn (set_claim_timer n i t) = n_pgn n.  Proof. reflexivity. Qed.
-#[export] Hint Rewrite pgn_upd_dev pgn_upd_q pgn_set_now pgn_end_send_tp pgn_set_claim_timer : pgn.
-Definition nq3 (n:node) (x:node * list event * bool) : Prop := n_pgn (fst (fst x)) = n_pgn n /\ dlv_of (snd (fst x)) = [].
-Definition nq2 (n:node) (x:node * list event) : Prop := n_pgn (fst x) = n_pgn n /\ dlv_of (snd x) = [].
+#[export] Hint Rewrite pgn_upd_dev pgn_upd_q pgn_set_now pgn_end_send_tp pgn_set_claim_timer now_upd_dev now_upd_q now_end_send_tp now_set_claim_timer : pgn.
+Definition nq3 (n:node) (x:node * list event * bool) : Prop := nsame n (fst (fst x)) /\ dlv_of (snd (fst x)) = [].
+Definition nq2 (n:node) (x:node * list event) : Prop := nsame n (fst x) /\ dlv_of (snd x) = [].
 Ltac tail_know :=
   repeat match goal with
   | |- context [fst (fst ?x)] => know x; destruct x as [[? ?] ?]
@@ -80,23 +86,23 @@ Ltac tail_know :=
   | |- context [snd ?x] => know x; destruct x as [? ?]
   end.
 Ltac fin :=
-  unfold nq2, nq3 in *; tail_know; unfold nq2, nq3 in *; cbn [fst snd ev4 ev3] in *; repeat match goal with K : _ /\ _ |- _ => destruct K end; repeat split;
+  unfold nq2, nq3, nsame in *; tail_know; unfold nq2, nq3, nsame in *; cbn [fst snd ev4 ev3] in *; repeat match goal with K : _ /\ _ |- _ => destruct K end; repeat split;
   autorewrite with pgn in *; fin_dlv; try congruence.
 
-Lemma claim_started_k n i : KNOW (claim_started n i) (n_pgn (fst (claim_started n i)) = n_pgn n).
-Proof. constructor; unfold claim_started. repeat crack1; fin. Qed.
+Lemma claim_started_k n i : KNOW (claim_started n i) (nsame n (fst (claim_started n i))).
+Proof. constructor; unfold claim_started, nsame. repeat crack1; fin. Qed.
 #[export] Hint Resolve claim_started_k : rxk.
-Lemma gsc_k n i p : KNOW (get_sequence_counter n i p) (n_pgn (fst (get_sequence_counter n i p)) = n_pgn n).
-Proof. constructor; unfold get_sequence_counter. repeat crack1; fin. Qed.
+Lemma gsc_k n i p : KNOW (get_sequence_counter n i p) (nsame n (fst (get_sequence_counter n i p))).
+Proof. constructor; unfold get_sequence_counter, nsame. repeat crack1; fin. Qed.
 #[export] Hint Resolve gsc_k : rxk.
-Lemma send_gate_k n m i : KNOW (send_gate n m i) (n_pgn (fst (send_gate n m i)) = n_pgn n).
-Proof. constructor; unfold send_gate. repeat crack1; fin. Qed.
+Lemma send_gate_k n m i : KNOW (send_gate n m i) (nsame n (fst (send_gate n m i))).
+Proof. constructor; unfold send_gate, nsame. repeat crack1; fin. Qed.
 #[export] Hint Resolve send_gate_k : rxk.
 Lemma send_msg0_k n m i : KNOW (send_msg0 n m i) (nq3 n (send_msg0 n m i)).
 Proof. constructor; unfold send_msg0, nq3. repeat crack1; fin. Qed.
 #[export] Hint Resolve send_msg0_k : rxk.
-Lemma end_send_tp_k n i : KNOW (end_send_tp n i) (n_pgn (end_send_tp n i) = n_pgn n).
-Proof. constructor. reflexivity. Qed.
+Lemma end_send_tp_k n i : KNOW (end_send_tp n i) (nsame n (end_send_tp n i)).
+Proof. constructor. split; reflexivity. Qed.
 #[export] Hint Resolve end_send_tp_k : rxk.
 Lemma start_send_tp_k n m i : KNOW (start_send_tp n m i) (nq3 n (start_send_tp n m i)).
 Proof. constructor; unfold start_send_tp, nq3. repeat crack1; unfold nq3 in *; fin. Qed.
@@ -110,13 +116,14 @@ Proof. constructor; unfold send_iso_address_claim, nq2. repeat crack1; unfold nq
 Lemma start_address_claim_k n i : KNOW (start_address_claim n i) (nq2 n (start_address_claim n i)).
 Proof. constructor; unfold start_address_claim, nq2. repeat crack1; unfold nq2 in *; fin. Qed.
 #[export] Hint Resolve start_address_claim_k : rxk.
-Lemma step_k n o : KNOW (step n o) (nq2 n (step n o)).
-Proof. constructor; unfold step, nq2. repeat crack1; unfold nq2, nq3 in *; fin. Qed.
+Lemma step_k n o : KNOW (step n o) (n_pgn (fst (step n o)) = n_pgn n /\ dlv_of (snd (step n o)) = []).
+Proof. constructor; unfold step. repeat crack1; fin. Qed.
 #[export] Hint Resolve step_k : rxk.
 
 (* ---------------- part 2 (NodeRxDefs) ---------------- *)
 Definition same_rx (r r':rnode) : Prop :=
-  r_slots r' = r_slots r /\ r_q r' = r_q r /\ n_pgn (rn r') = n_pgn (rn r) /\ c_only_known (r_cfg r') = c_only_known (r_cfg r).
+  r_slots r' = r_slots r /\ r_q r' = r_q r /\ n_pgn (rn r') = n_pgn (rn r) /\ c_only_known (r_cfg r') = c_only_known (r_cfg r) /\
+  n_now (rn r') = n_now (rn r).
 Definition rq2 (r:rnode) (x:rnode * list event) : Prop := same_rx r (fst x) /\ dlv_of (snd x) = [].
 Definition rq3 (r:rnode) (x:rnode * list event * bool) : Prop := same_rx r (fst (fst x)) /\ dlv_of (snd (fst x)) = [].
 Lemma same_rx_refl r : same_rx r r.  Proof. repeat split. Qed.
@@ -130,8 +137,8 @@ Ltac abs_rn :=
   | |- context [set_dev_tp ?r ?i ?a ?b ?c] => abs_one (set_dev_tp r i a b c)
   | |- context [end_send_tp_r ?r ?i] => abs_one (end_send_tp_r r i)
   end.
-Ltac unf_rx := unfold rq2, rq3, nq2, nq3, same_rx in *.
-Ltac prj := cbn [fst snd ev4 ev3 r_slots r_q rn r_cfg n_pgn with_rn with_devx with_open with_sync with_devinfo_changed with_clk set_oob with_slots with_rxq] in *.
+Ltac unf_rx := unfold rq2, rq3, nq2, nq3, nsame, same_rx in *.
+Ltac prj := cbn [fst snd ev4 ev3 r_slots r_q rn r_cfg n_pgn n_now with_rn with_devx with_open with_sync with_devinfo_changed with_clk set_oob with_slots with_rxq] in *.
 Ltac finr :=
   abs_rn; unf_rx; tail_know; unf_rx; prj; repeat match goal with K : _ /\ _ |- _ => destruct K end; repeat split;
   autorewrite with pgn in *; fin_dlv; try congruence.
@@ -279,7 +286,7 @@ Section WithGF.
 Variable gf : rnode -> slot -> rnode * list event.
 Hypothesis Hgf : gf_ok gf.
 Lemma gf_k r s : KNOW (gf r s) (rq2 r (gf r s)).
-Proof. constructor. destruct (Hgf r s) as (A & B & C & D & E). repeat split; assumption. Qed.
+Proof. constructor. destruct (Hgf r s) as (A & B & C & D & E & F). repeat split; assumption. Qed.
 Hint Resolve gf_k : rxk.
 Lemma handle_system_k r s : KNOW (handle_system gf r s) (rq2 r (handle_system gf r s)).
 Proof. constructor. unfold handle_system. crack; finr. Qed.
@@ -349,7 +356,7 @@ Ltac abs_rn ::=
 Lemma open_step_k r :
   let x := open_step r in
   r_slots (fst (fst x)) = r_slots r /\ (r_q (fst (fst x)) = r_q r \/ r_q (fst (fst x)) = []) /\ n_pgn (rn (fst (fst x))) = n_pgn (rn r) /\
-  c_only_known (r_cfg (fst (fst x))) = c_only_known (r_cfg r) /\ dlv_of (snd (fst x)) = [].
+  c_only_known (r_cfg (fst (fst x))) = c_only_known (r_cfg r) /\ n_now (rn (fst (fst x))) = n_now (rn r) /\ dlv_of (snd (fst x)) = [].
 Proof.
   cbv zeta. unfold open_step. crack; finr; auto; try (left; congruence).
 Qed.
